@@ -1456,7 +1456,7 @@ pub fn c10(tier: &str) -> (Vec<Space>, Focus) {
 // of traces with the Interrupt event removed equals the set of traces of the same
 // configuration in which no signal is ever sent.
 
-fn trace_set(spec: &Spec, cfg: &JobCfg, deadline: std::time::Instant, execs: &mut u64) -> std::collections::BTreeMap<u64, Vec<u16>> {
+fn trace_set(spec: &Spec, cfg: &JobCfg, keep_interrupt: bool, deadline: std::time::Instant, execs: &mut u64) -> std::collections::BTreeMap<u64, Vec<u16>> {
     use crate::exec::Ev;
     let mut set = std::collections::BTreeMap::new();
     let mut stack: Vec<Vec<u16>> = vec![vec![]];
@@ -1489,7 +1489,7 @@ fn trace_set(spec: &Spec, cfg: &JobCfg, deadline: std::time::Instant, execs: &mu
                 }
             }
         }
-        let filtered: Vec<Ev> = ev.into_iter().filter(|e| *e != Ev::Interrupt).collect();
+        let filtered: Vec<Ev> = ev.into_iter().filter(|e| keep_interrupt || *e != Ev::Interrupt).collect();
         set.entry(crate::explore::hash64(&(filtered, result))).or_insert(key);
     }
     set
@@ -1508,7 +1508,8 @@ pub fn c08_ignore_differential(tier: &str, deadline: std::time::Instant, total: 
         Stats::default,
         |i, local: &mut Stats| {
             let spec = &specs_ref[i];
-            let mut pairs: Vec<(JobCfg, JobCfg)> = vec![];
+            // (configuration A, configuration B, what must not differ)
+            let mut pairs: Vec<(JobCfg, JobCfg, &'static str)> = vec![];
             for api in Api::all_with() {
                 for rev in [false, true] {
                     for limit in [None, Some(1)] {
@@ -1522,7 +1523,7 @@ pub fn c08_ignore_differential(tier: &str, deadline: std::time::Instant, total: 
                         let mut b = a.clone();
                         a.interrupt = true;
                         b.interrupt = false;
-                        pairs.push((JobCfg::S(a), JobCfg::S(b)));
+                        pairs.push((JobCfg::S(a), JobCfg::S(b), "a run that must ignore interruptions, with and without a signal"));
                     }
                 }
             }
@@ -1534,14 +1535,31 @@ pub fn c08_ignore_differential(tier: &str, deadline: std::time::Instant, total: 
                     let mut b = a.clone();
                     a.interrupt = true;
                     b.interrupt = false;
-                    pairs.push((JobCfg::C(a), JobCfg::C(b)));
+                    pairs.push((JobCfg::C(a), JobCfg::C(b), "a stream that must ignore interruptions, with and without a signal"));
                 }
             }
-            for (a, b) in pairs {
+            // the interruptible streams ignore `interrupted_next_item_include`
+            if !crate::ishim::DEFAULT_FEATURES_BUILD {
+                for strat in [Strat::Finish, Strat::NextN(0), Strat::NextN(1), Strat::NextN(2)] {
+                    for rev in [false, true] {
+                        let mut a = CCfg::plain(SApi::StreamWithInterruptible);
+                        a.rev = rev;
+                        a.strat = strat;
+                        a.interrupt = true;
+                        let mut b = a.clone();
+                        a.include = false;
+                        b.include = true;
+                        pairs.push((JobCfg::C(a), JobCfg::C(b), "stream_with_interruptible with interrupted_next_item_include false and true (the streams ignore that flag)"));
+                    }
+                }
+            }
+            for (a, b, what) in pairs {
                 local.jobs += 1;
                 let mut execs = 0u64;
-                let sa = trace_set(spec, &a, deadline, &mut execs);
-                let sb = trace_set(spec, &b, deadline, &mut execs);
+                // when both sides send the signal its position is part of the behaviour compared
+                let keep = what.starts_with("stream_with_interruptible with");
+                let sa = trace_set(spec, &a, keep, deadline, &mut execs);
+                let sb = trace_set(spec, &b, keep, deadline, &mut execs);
                 local.execs += execs;
                 local.transitions += execs;
                 local.states += sb.len() as u64;
@@ -1557,7 +1575,7 @@ pub fn c08_ignore_differential(tier: &str, deadline: std::time::Instant, total: 
                 if let Some(k) = only_a.first() {
                     local.add_viol(ViolRec {
                         prop: 8,
-                        msg: "a signal changed the behaviour of a run that must ignore interruptions (trace not producible without the signal)".into(),
+                        msg: format!("{what}: the first configuration has a behaviour the second cannot produce"),
                         spec: spec.clone(),
                         cfg: a.clone(),
                         choices: (*k).clone(),
@@ -1567,7 +1585,7 @@ pub fn c08_ignore_differential(tier: &str, deadline: std::time::Instant, total: 
                 } else if let Some(k) = only_b.first() {
                     local.add_viol(ViolRec {
                         prop: 8,
-                        msg: "arming the signal removed a behaviour of a run that must ignore interruptions".into(),
+                        msg: format!("{what}: the second configuration has a behaviour the first cannot produce"),
                         spec: spec.clone(),
                         cfg: b.clone(),
                         choices: (*k).clone(),
